@@ -337,7 +337,7 @@ class Walker:
             self._store(st, i)
         elif op == "select":
             c = self.val(st, i.ops[0])
-            if isinstance(c, tuple) and c[0] == "cmp" and i.type.startswith("i"):
+            if isinstance(c, tuple) and c[0] == "cmp":
                 # a value chosen by a comparison: follow both choices as separate paths, each with the comparison's outcome assumed
                 outs = []
                 for truth, arm in ((True, i.ops[1]), (False, i.ops[2])):
@@ -345,7 +345,9 @@ class Walker:
                     if not (self._assume(s2, c[1], truth) and self.feasible(s2)):
                         continue
                     v = self.val(s2, arm)
-                    s2.env[i.res] = v if isinstance(v, Lin) else self.fresh(s2, "%" + i.res, i.type)
+                    if i.type.startswith("i") and not isinstance(v, Lin) and not (isinstance(v, tuple) and v and v[0] == "cmp"):
+                        v = self.fresh(s2, "%" + i.res, i.type)
+                    s2.env[i.res] = v
                     outs += self._continue_after(s2, i, block)
                 return outs
             st.env[i.res] = self.fresh(st, "%" + i.res, i.type) if i.type.startswith("i") else None
@@ -464,6 +466,11 @@ class Walker:
     def _assume(self, st, cmp_, truth):
         a, b = self.val(st, cmp_.ops[0]), self.val(st, cmp_.ops[1])
         pred = cmp_.x["pred"]
+        # a materialised boolean (a comparison kept in a flag) tested against 0 / 1
+        for x, y in ((a, b), (b, a)):
+            if isinstance(x, tuple) and x and x[0] == "cmp" and isinstance(y, Lin) and y.is_const() and y.k in (0, 1) and pred in ("eq", "ne"):
+                same = (pred == "ne") == (y.k == 0)
+                return self._assume(st, x[1], truth if same else not truth)
         if not truth:
             pred = {"eq": "ne", "ne": "eq", "slt": "sge", "sge": "slt", "sgt": "sle", "sle": "sgt",
                     "ult": "uge", "uge": "ult", "ugt": "ule", "ule": "ugt"}[pred]
